@@ -258,7 +258,11 @@ def responder_case(ck, rng, i, forced=None):
     if forced:
         ask_transport = forced[2]
         ck.count('responder.mixed_modes_grid')
-    sim.case = {'family': 'responder', 'policy': pname, 'mode': mode, 'kind': kind, 'ask_transport': ask_transport, 'tsi': tsi, 'tsr': tsr}
+    # the Protocol ID field of USE_TRANSPORT_MODE (a notification that relates to no existing SA) is ignored on receipt: other values than 0 ask for the same thing
+    notify_proto = (0, 0, 3, 0, 2, 1, 0, 255)[i % 8]
+    if ask_transport and notify_proto:
+        ck.count('responder.transport_mode_asked_for_with_a_non_zero_protocol_id')
+    sim.case = {'family': 'responder', 'policy': pname, 'mode': mode, 'kind': kind, 'ask_transport': ask_transport, 'protocol_id_of_the_notification': notify_proto, 'tsi': tsi, 'tsr': tsr}
     p = party.RefParty(S.A4, S.B4, rng)
     trs = [{'type': 1, 'id': 12, 'keylen': 256}, {'type': 3, 'id': 12, 'keylen': None}, {'type': 2, 'id': 5, 'keylen': None}, {'type': 4, 'id': 19, 'keylen': None}]
     sim.inject(b, S.A4, S.B4, p.init_request(trs, 19))
@@ -267,7 +271,7 @@ def responder_case(ck, rng, i, forced=None):
         return
     child = [{'type': 1, 'id': 12, 'keylen': 256}, {'type': 1, 'id': 12, 'keylen': 128}, {'type': 3, 'id': 12, 'keylen': None}, {'type': 5, 'id': 0, 'keylen': None}]
     n0 = c02.newsa_count(b)
-    sim.inject(b, S.A4, S.B4, p.auth_request(c02.ID_A[0], c02.ID_A[1], 2, p.auth_psk(c02.PSK_A, *c02.ID_A), child, 3, tsi, tsr, ask_transport))
+    sim.inject(b, S.A4, S.B4, p.auth_request(c02.ID_A[0], c02.ID_A[1], 2, p.auth_psk(c02.PSK_A, *c02.ID_A), child, 3, tsi, tsr, (True if notify_proto == 0 else notify_proto) if ask_transport else False))
     if not sim.net:
         ck.violation('responder-did-not-answer-a-valid-ike-auth-request', {}, sim.case)
         return
@@ -867,6 +871,7 @@ def verdict(ck):
     ck.floor('exhaustive selector pairs', c['subset.pairs'], 3 * 32400)
     ck.floor('network round trips', c['network.roundtrips'], 2000)
     ck.floor('responder installs judged', c['responder.installed'], 60)
+    ck.floor('requests asking for transport mode with a non-zero Protocol ID in the notification', c['responder.transport_mode_asked_for_with_a_non_zero_protocol_id'], 60)
     ck.floor('mixed-mode policy grid cases', c['responder.mixed_modes_grid'], 100)
     ck.floor('responder refusals required', c['responder.must_refuse'], 60)
     ck.floor('kernel selectors checked', c['responder.kernel_selectors_checked'], 100)
